@@ -134,7 +134,8 @@ IndentCases(s, cuts) ==
       : n \in IndentNs, n2 \in IndentN2s, em \in BOOLEAN }
 
 JsCase(s)  == [s |-> s, idd |-> H!JsIdDetermined(s), id |-> H!IsIdentifierName(s),
-               numd |-> H!JsNumDetermined(s), num |-> H!IsDecimalLiteral(s)]
+               numd |-> H!JsNumDetermined(s), num |-> H!IsDecimalLiteral(s),
+               fd |-> H!FirstDetermined(s), st |-> H!IdStartOK(s), ct |-> H!IdContOK(s), ld |-> H!LastDetermined(s), en |-> H!IdEndOK(s)]
 CssCase(s) == [s |-> s, idd |-> H!CssIdentDetermined(s), id |-> H!CssIsIdent(s),
                urld |-> H!CssUrlDetermined(s), url |-> H!CssIsUrl(s)]
 CssSane(s) == H!RefAgrees(H!Classes(s))
